@@ -243,7 +243,9 @@ func init() {
 			return
 		}
 		if rr.Err != nil {
-			c.Hit("real-rejects-what-model-accepts") // not C01's subject (C02/C08 decide it)
+			// every vector of this alphabet that the model accepts consists of documented spellings of declared options:
+			// a rejection means an occurrence's denoted value did not reach its field
+			c.Fail("denoted-occurrence-rejected|"+kind.T.Name+"|"+errType(rr.Err), fmt.Sprint(rr.Err))
 			return
 		}
 		c.Hit("compared")
@@ -265,6 +267,6 @@ func init() {
 		Assumptions:  []string{"multi-valued optional-argument options are kept out (bare occurrence semantics undocumented)", "flags of a cluster that precede an unknown character are not asserted"},
 		RequiredHits: []string{"compared", "repeated-occurrence", "model-fault"},
 		Bound:        [2]string{"all unit sequences of length <= 3", "all unit sequences of length <= 4"},
-		BudgetS:      [2]int{100, 1500},
+		BudgetS:      [2]int{170, 1500},
 	})
 }
